@@ -31,6 +31,8 @@ Proof. intros. rewrite nth_error_app1; [assumption|]. apply nth_error_Some. cong
 
 Section Machine.
   Variable T : tables.
+  (* the algebra never updates in place an array reachable from an operand (regenerated: t_pure cur computes to true) *)
+  Hypothesis pure : t_pure T = true.
 
   (* ---- the `_cached` cell is written once: a later step never changes an assembled operator ---- *)
   Lemma mk_oper_ops : forall s k args pid i o, nth_error (s_ops s) i = Some o ->
@@ -71,6 +73,7 @@ Section Machine.
     - cbn [s_ops]. eauto 10.
     - cbn [s_ops]. eauto 10.
     - rewrite do_mass_ops. eauto 10.
+    - rewrite pure. now apply do_weak_keeps.
   Qed.
 
   Theorem cached_write_once : forall h' s i d, observe s i = Some d -> observe (fold_left (step T) h' s) i = Some d.
@@ -187,6 +190,7 @@ Section Machine.
     - intros i o H. exact (I i o H).
     - intros i o H. exact (I i o H).
     - now apply Inv_do_mass.
+    - rewrite pure. now apply Inv_do_weak.
   Qed.
 
   Lemma Inv_run : forall h s, Inv s -> Inv (fold_left (step T) h s).
@@ -253,3 +257,12 @@ Lemma mass_memo_refuted :
   nth_error (s_spaces (run pinned [SetParam 0 QReg 4; CreateSpace; CreateOp KDense 0 None; StrongForm 0 0])) 0
     = Some (Some [(APromote, 0%Z); (QReg, 4%Z)]).
 Proof. split; vm_compute; reflexivity. Qed.
+
+(* in-place scaling of the array behind weak_form() (tables with t_pure = false, e.g. the seeded change C18-3): assembling
+   a derived operator changes what the operand's weak_form() returns afterwards *)
+Definition impure : tables :=
+  {| t_reads := t_reads pinned; t_caches := t_caches pinned; t_mass_kind := KSparse; t_mass_global := true; t_pure := false |}.
+Lemma inplace_scaling_refuted :
+  observe (run impure [CreateOp KDense 0 None; WeakForm 0]) 0 <>
+  observe (run impure [CreateOp KDense 0 None; WeakForm 0; AssembleDerived 0 3]) 0.
+Proof. vm_compute. discriminate. Qed.
